@@ -159,6 +159,145 @@ def judge(case, impl, model):
     return fs
 
 
+REASONS = {1: "Overflow", 2: "DivByZero", 3: "OutOfBounds"}
+
+
+def wide_shift_phase(ctx, quick):
+    """`x << s` / `x >> s` where `s` is a number without a suffix bound by `let` (32 wires, not a u8): the shift must
+    fail with Overflow exactly when the amount is not smaller than the width of `x`, and otherwise give what the same
+    shift by the `u8` amount gives"""
+    from . import gen_types as T
+    fs = []
+    amounts = [0, 1, 2, 7, 8, 15, 16, 31, 32, 63, 64, 127, 255, 256, 258, 264, 511, 65536, 65538, 16777216, 2147483647]
+    cases = []
+    for t in ["u8", "u16", "u32", "u64", "i8", "i16", "i32", "i64"]:
+        bits = T.INTS[t][1]
+        for op in ["<<", ">>"]:
+            for _ in range(4 if quick else 40):
+                a, b = ctx.rng.choice(amounts), ctx.rng.choice(amounts)
+                xs = [T.rand_value(ctx.rng, {"k": "int", "t": t}, 0.5) for _ in range(3)]
+                src = f"pub fn main(x: {t}, b: bool) -> {t} {{\n    let s = if b {{ {a} }} else {{ {b} }};\n    x {op} s\n}}\n"
+                for which, m in ((True, a), (False, b)):
+                    cases.append({"t": t, "bits": bits, "op": op, "m": m, "src": src, "xs": xs, "b": which,
+                                  "ref": f"pub fn main(x: {t}, b: bool) -> {t} {{\n    x {op} {m}u8\n}}\n" if m < min(bits, 256) else None})
+    reqs = []
+    for i, c in enumerate(cases):
+        inputs = [[T.encode({"k": "int", "t": c["t"]}, x), "1" if c["b"] else "0"] for x in c["xs"]]
+        reqs.append({"id": 2 * i, "op": "compile_eval", "src": c["src"], "kind": "ssa", "dedup": True, "inputs": inputs})
+        if c["ref"]:
+            reqs.append({"id": 2 * i + 1, "op": "compile_eval", "src": c["ref"], "kind": "ssa", "dedup": True, "inputs": inputs})
+    res = common.run_lines_guarded(common.GVH, reqs, per_case_timeout=20.0)
+    tally = {"overflow_expected": 0, "value_expected": 0}
+    for i, c in enumerate(cases):
+        r, ref = res.get(2 * i) or {}, res.get(2 * i + 1) or {}
+        sub = {"op": "compile_eval", "src": c["src"], "kind": "ssa", "dedup": True, "x": c["xs"], "b": c["b"], "amount": c["m"]}
+        if not r.get("ok"):
+            fs.append(Failure("oracle", "c02:wide-shift:not-compiled", f"the program is not compiled ({r.get('stage')})", sub, "a circuit", r))
+            continue
+        for k, out in enumerate(r["outs"]):
+            if c["m"] >= c["bits"]:
+                tally["overflow_expected"] += 1
+                if not (out[0] == "1" and int(out[1:33], 2) == 1):
+                    fs.append(Failure("oracle", "c02:wide-shift:no-overflow", f"a {c['t']} shifted by {c['m']} (an amount of 32 wires) does not fail with Overflow", sub, "Overflow", out[:33]))
+                    break
+            else:
+                tally["value_expected"] += 1
+                want = (ref.get("outs") or [None] * (k + 1))[k]
+                if want is None or out[0] != "0" or want[0] != "0" or out[161:] != want[161:]:
+                    fs.append(Failure("oracle", "c02:wide-shift:differs-from-u8-amount", f"a {c['t']} shifted by {c['m']} held in 32 wires differs from the shift by {c['m']}u8", sub, want and want[161:], out[:1] + "…" + out[161:]))
+                    break
+    return fs, tally
+
+
+def _fail_expr(t, avoid):
+    """an expression of integer type t that always fails, with a reason other than `avoid`"""
+    if avoid == "OutOfBounds":
+        return ["bin", "/", {"k": "int", "t": t}, ["int", 1, t], ["int", 0, t]]
+    return ["index", ["array", [["int", 0, t]]], ["int", 1, "usize"]]
+
+
+def _replace_site(node, k, reason):
+    """the tree with the operation of site k replaced by: its operands (in their order), then a failure of another reason"""
+    if isinstance(node, list):
+        if node and isinstance(node[-1], dict) and node[-1].get("site") == k:
+            if node[0] == "bin":
+                return ["block", [["let", ["id", "t1_"], node[3]], ["let", ["id", "t2_"], node[4]], ["expr", _fail_expr(node[2]["t"], reason)]]]
+            if node[0] == "un":
+                return ["block", [["let", ["id", "t1_"], node[3]], ["expr", _fail_expr(node[2]["t"], reason)]]]
+            if node[0] == "index":
+                return ["block", [["let", ["id", "t1_"], node[1]], ["let", ["id", "t2_"], node[2]],
+                                  ["expr", ["index", ["var", "t1_"], _fail_expr("usize", "OutOfBounds")]]]]
+        return [_replace_site(x, k, reason) for x in node]
+    if isinstance(node, dict):
+        return {a: _replace_site(b, k, reason) for a, b in node.items()}
+    return node
+
+
+def location_phase(ctx, n):
+    """the source location in the panic record at program level. (1) It must be the span check.rs records (harness op
+    typed_ast) for an operation of the program that can raise the reported reason - arithmetic and shifts: Overflow,
+    `/` and `%`: DivByZero or Overflow, unary minus: Overflow, `a[i]`: OutOfBounds, an assignment through an index:
+    OutOfBounds at the statement; with exactly one such operation that is the exact location. (2) The operation at the
+    reported location must be reached before the first failure: in the Lean source semantics the program in which that
+    operation is replaced by `operands; failure of another reason` must fail with that other reason (if an earlier
+    operation fails first, it does not)."""
+    from . import c01, gen_prog
+    fs = []
+    tally = {"no_panic": 0, "unique_site_agrees": 0, "reached_before_the_first_failure": 0, "assignment_site_not_traced": 0, "skipped": 0}
+    cases = [c01.gen_case(ctx.rng.randrange(1 << 48), i, 6, features=STRESS if i % 2 else None, depth=3) for i in range(n)]
+    ta = common.run_lines_guarded(common.GVH, [{"id": c["id"], "op": "typed_ast", "src": c["src"]} for c in cases], per_case_timeout=20.0)
+    impl = common.run_lines_guarded(common.GVH, [c01.impl_case(c, "ssa", True) for c in cases], per_case_timeout=20.0)
+    reqs = []
+    for c in cases:
+        r, a = impl.get(c["id"]) or {}, ta.get(c["id"]) or {}
+        if not r.get("ok") or "sites" not in a:
+            tally["skipped"] += 1
+            continue
+        bad = False
+        for args, out in zip(c["args"], r["outs"]):
+            if bad:
+                break
+            if out.startswith("panic@") or out[0] != "1":
+                tally["no_panic"] += 1
+                continue
+            reason = REASONS.get(int(out[1:33], 2), "?")
+            loc = [int(out[33 + 32 * k: 65 + 32 * k], 2) for k in range(4)]
+            cands = [(i, s) for i, s in enumerate(a["sites"]) if reason in s["kinds"]]
+            here = [(i, s) for i, s in cands if s["meta"] == loc]
+            inputs = [gen_prog.val_json(t, v) for (_, t), v in zip(c["params"], args)]
+            sub = {"op": "c01", "seed": c["seed"], "gen": c["gen"], "src": c["src"], "config": "ssa,dedup=True", "args": inputs}
+            where = f"line {loc[0] + 1}:{loc[1] + 1}-{loc[2] + 1}:{loc[3] + 1}"
+            if not here:
+                fs.append(Failure("oracle", "c02:program:location-is-not-a-failing-operation:" + reason,
+                                  f"the panic record reports {reason} at {where}, which is not the location of any operation of the program "
+                                  f"that can fail with {reason} (there are {len(cands)})", sub, [s["meta"] for _, s in cands][:8], loc))
+                bad = True
+            elif len({tuple(s["meta"]) for _, s in cands}) == 1:
+                tally["unique_site_agrees"] += 1
+            elif any(s.get("node") == "assign" for _, s in here) or set(a.get("uses") or []) & {"for-join"}:
+                tally["assignment_site_not_traced"] += 1
+            else:
+                other = "DivByZero" if reason == "OutOfBounds" else "OutOfBounds"
+                for i, s in here:
+                    reqs.append({"id": len(reqs), "op": "src_eval", "prog": _replace_site(a["prog"], i, reason), "fn": "main", "inputs": [inputs],
+                                 "_key": (c["id"], tuple(loc), json.dumps(inputs)), "_sub": sub, "_reason": reason, "_other": other, "_where": where})
+    res = ctx.run_model([{k: v for k, v in q.items() if not k.startswith("_")} for q in reqs], timeout=3000)[0] if reqs else {}
+    by = {}
+    for q in reqs:
+        r = ((res.get(q["id"]) or {}).get("results") or [{}])[0]
+        by.setdefault(q["_key"], []).append((r.get("panic") == q["_other"], r, q))
+    for key, lst in by.items():
+        if any(ok for ok, _, _ in lst):
+            tally["reached_before_the_first_failure"] += 1
+        else:
+            _, r, q = lst[0]
+            fs.append(Failure("oracle", "c02:program:location-of-an-operation-after-the-first-failure:" + q["_reason"],
+                              f"the panic record reports {q['_reason']} at {q['_where']}, but in the source semantics an earlier operation fails before "
+                              f"the operation at that location is reached (with that operation replaced by a failure of reason {q['_other']} the "
+                              f"program still fails with {r})", q["_sub"], q["_other"], r))
+    return fs, tally
+
+
 def run(ctx):
     quick = ctx.tier == "quick"
     ctx.audit(PROP_MODULES)
@@ -202,6 +341,10 @@ def run(ctx):
     from . import c01
     pfs, ptally, pstats, pcases = c01.collect(ctx, 800 if quick else 15000, {"features": STRESS}, prefix="c02:program", strict_reason=True)
     failures += pfs
+    lfs, ltally = location_phase(ctx, 400 if quick else 8000)
+    failures += lfs
+    wfs, wtally = wide_shift_phase(ctx, quick)
+    failures += wfs
     seen_sig, uniq = set(), []
     for f in failures:
         if f.signature not in seen_sig:
@@ -216,11 +359,13 @@ def run(ctx):
                 "panics on at least one assignment. part (b): generated whole programs (tools/gv/gen_prog.py) on 6 argument tuples "
                 "each: the circuit's panic flag must be set exactly when the Lean source semantics reach a failing operation, with "
                 "the reason of the first failing operation in evaluation order (overflow, division by zero, out of bounds); code "
-                "in branches not taken and short-circuited operands must stay silent",
+                "in branches not taken and short-circuited operands must stay silent; the reported source location must be the span "
+                "check.rs records for an operation of the program that can raise the reported reason (exact when there is one), and that "
+                "operation must be reached before the first failure in the Lean source semantics",
         "traces_validated_against_impl": len(cases),
-        "distribution": dict(stats, program_level_runs=ptally),
+        "distribution": dict(stats, program_level_runs=ptally, program_level_locations=ltally, wide_shift_amounts=wtally),
         "samples": [cases[1], cases[-1]],
     }
     assumptions = ["when the flag is clear the 160 information bits are unspecified (they are not compared)",
-                   "program level: the reported source location is not compared (the generator does not track columns)"]
+                   "program level: the reported source location is compared with the set of operations that can raise the reason, not with the first failing one (the Lean semantics carry no locations)"]
     return common.finish(ctx, uniq, coverage, assumptions, "proof", search=None)
